@@ -3559,11 +3559,15 @@ class EntityGroup:
     def copy(self, vmf: Optional[VMF] = None) -> 'EntityGroup':
         """Duplicate an entity group."""
         if vmf is None:
+            # A copy in the same map needs an ID of its own, like brushes and faces.
             vmf = self.vmf
+            des_id = -1
+        else:
+            des_id = self.id
 
         return EntityGroup(
             vmf,
-            self.id,
+            des_id,
             self.shown,
             self.auto_shown,
             self.color.copy(),
